@@ -48,11 +48,12 @@ def make_universe():
         Entry("article", "a", [], 17, "@article{a}"),
         DuplicateFieldKeyBlock({"x"}, Entry("misc", "b", [Field("x", "1", 19), Field("x", "2", 19)], 18, "@misc{b,x=1,x=2}")),
         Entry("misc", "", [Field("z", "9", 21)], 20, "@misc{, z=9}"),
+        String("A", '"s1"', 10, '@string{a = "s1"}'),  # differs from block 4 only in the letter case of its key
     ]
     return u
 
 
-U_SIZE = 14
+U_SIZE = 15
 U_SMALL = [0, 1, 2, 4, 5, 8]  # reduced universe of the exhaustive engine
 
 
@@ -323,6 +324,8 @@ def small_ops():
     ops.append(["add", [["c", 8]], False, False])
     ops.append(["add", [["c", 0]], False, False])
     ops.append(["remove", [["c", 8]], False])
+    ops.append(["add", [["u", 14]], False, False])
+    ops.append(["remove", [["u", 14]], False])
     ops.append(["add", [["u", 0], ["u", 1]], False, True])
     ops.append(["add", [["u", 4], ["u", 4]], False, True])
     for i in (0, 1, 4, 8):
